@@ -164,6 +164,7 @@ class Unit:
         self.fb = FxBuilder(an.facts, inline=an.inline_pred(fn), max_depth=an.max_depth, max_blocks=10 ** 6,
                             ai_mode=True, invariants=TYPE_INV, agg_watch=an.agg_watch)
         self.tree = self.fb.tree(fn)
+        self.done_ctx = set()     # (obligation key, call chain) discharged
         self.assumed = {}         # assumption key -> uses
         self.open = {}            # key -> Obligation (not discharged on at least one path)
         self.done = {}            # key -> count of discharges
@@ -1287,6 +1288,7 @@ class Unit:
         k = o.key()
         if ok:
             self.done[k] = self.done.get(k, 0) + 1
+            self.done_ctx.add((k, tuple(c[1] for c in chain)))
             return
         akey = (kind, what, site.fn.def_path)
         a = self.an.assumed.get(akey)
@@ -1300,6 +1302,10 @@ class Unit:
     # ---------------------------------------------------------------------------------- exploration
     def run(self):
         st = St()
+        if self.fn.kind == "Closure" and self.fn.body.argc >= 2:
+            r = self.an.closure_arg.get(self.fn.def_path)
+            if r is not None:
+                st.cons[("param", 2, self.fn.body.names.get(2, "_2"))] = r
         self.explore(self.tree, 0, st, (), 0, ())
         return self
 
@@ -1708,6 +1714,14 @@ class Unit:
         if ls == "unreachable_unchecked":
             self.oblige("unsafe", "unreachable_unchecked", site, chain, False, "reached")
             return
+        if ls == "map" and "Iterator" in full and len(args) == 2 and args[1][0] == "agg" and args[1][1] == "closure" and args[1][2]:
+            # the closure is only ever called with items of the iterator it is mapped over
+            it = args[0]
+            if it[0] == "agg" and it[2] == "Range" and len(it[3]) == 2:
+                lo, hi = self.rng(it[3][0], st), self.rng(it[3][1], st)
+                r = (lo[0], hi[1] - 1)
+                old = self.an.closure_arg.get(args[1][2])
+                self.an.closure_arg[args[1][2]] = r if old is None else join(old, r)
         if ls in TOTAL_EXT:
             return
         self.oblige("model", "unclassified external callee " + full, site, chain, False, "")
@@ -1756,6 +1770,7 @@ class Analyzer:
         self.assumed = {}         # (kind, what, function def path) -> (class, reason)
         self.assumed_used = {}
         self.board_builders = set()
+        self.closure_arg = {}     # closure def path -> range of its argument (items of the Range it is mapped over)
         self.move_inv = None      # kind -> ((src lo, src hi), (dst lo, dst hi)), from the well-formedness reference (C06)
         self.move_gated = set()   # functions that build a Move and release it only after is_well_formed()
         self.ep_inv = None        # range of a Board's / RawUndo's en-passant source square
